@@ -148,6 +148,11 @@ def gen_point(rng):
         m = mat_any(rng)
         m[6], m[7], m[8] = a, b, rng.choice([0, 0, rv(rng)])
         v = [b, -a, 0 if m[8] else rv(rng)]
+        r = rng.random()
+        if r < 0.2:
+            v = [0, 0, 0]                      # 0/0
+        elif r < 0.4:
+            m[0:6] = [0, 0, rv(rng) if v[2] == 0 else 0, 0, 0, 0]
     elif kind == "any":
         m = mat_rv(rng)
         v = [rv(rng), rv(rng), rv(rng)]
@@ -537,7 +542,7 @@ def mc(chk, tier):
         mod, cfg, neg = x
         return x, vf.tlc_mc(os.path.join(base, mod), cfg=os.path.join(base, cfg), workers=4, timeout=1500, expect_violation=neg)
 
-    with ThreadPoolExecutor(max_workers=3) as ex:
+    with ThreadPoolExecutor(max_workers=2) as ex:      # 2 x 4 TLC workers
         results = list(ex.map(one, runs))
     for (mod, cfg, neg), r in results:
         chk.add_tlc(r, ("negative config (must be rejected) " if neg else "model check ") + cfg)
@@ -566,6 +571,9 @@ def count_events(chk, tracefile):
             chk.evaluations += 1
             fn = line[18:line.index('"', 18)]
             by[fn] = by.get(fn, 0) + 1
+            if '"ret":false' in line:
+                bf = chk.extra.setdefault("events_returning_false_by_fn", {})
+                bf[fn] = bf.get(fn, 0) + 1
             chk.distinct_keys.add(hashlib.sha1(line.encode()).digest()[:8])
         elif line.startswith('{"e":"Crash"'):
             chk.extra["crash_events"] = chk.extra.get("crash_events", 0) + 1
@@ -589,8 +597,7 @@ def run(prop, args):
         return chk.finish()
 
     # 1. model checking: the trusted arithmetic core and the postconditions (small scope)
-    if not os.environ.get("MATRIX_SKIP_MC"):          # development aid only
-        mc(chk, args.tier)
+    mc(chk, args.tier)
 
     # 2. inputs
     calls, nbeh, r = tlc_inputs(80 if quick else 600, 12, args.seed)
@@ -609,7 +616,7 @@ def run(prop, args):
         "translate 0 1 %s %s -2147483648 5" % (" ".join(map(str, ID9)), " ".join(map(str, ID9))),
         "invert 305419896 591751048 878082202 267242408 517782168 768321926 286331152 554766608 823202064 0",   # singular, TRUE
     ]
-    calls += random_calls(rng, 2500 if quick else 20000)
+    calls += random_calls(rng, 2500 if quick else 40000)
     rng.shuffle(calls)
     chk.extra["calls"] = len(calls)
 
